@@ -190,7 +190,9 @@ def near_tie_at_optimum(case, rt, directed):
 def ident(case):
     """candidate identifiers are handed to the implementation as str (the shipped loaders) or, with
     "ids": "int" (decimal strings only), as Python ints; the case itself always holds strings"""
-    return int if case.get("ids") == "int" else (lambda c: c)
+    # every identifier reaches the code as a FRESH object (a string parsed from a file, as load_contests_from_raire and
+    # run_raire produce): equal to the entry of contest.candidates, not identical with it (round 9: `is` for `==`)
+    return int if case.get("ids") == "int" else (lambda c: "".join(list(c)))
 
 
 def build_inputs(case):
@@ -768,10 +770,18 @@ def _oracle_c15(case, ir):
         return {"what": f"compute_raire_assertions raised {ir.get('err')}: {ir.get('msg')}"}
     cands, winner = case["cands"], case["winner"]
     res = ir["as"]
-    if len(cands) > 6 or not res or any(a is None for a in res):
+    if len(cands) > 6 or any(a is None for a in res):
         return None
     wb = ballots_of(case)
     asn = asn_of(case["asn"])
+    if not res:
+        # nothing returned = no alternative winner excluded: right only when no set of true assertions excludes them all
+        worst_ = [(best_true_difficulty(case, wb, pi, asn), pi) for pi in alt_orders(cands, winner)]
+        if worst_ and max(b for b, _ in worst_) < math.inf:
+            o_, pi_ = max(worst_, key=lambda z: z[0])
+            return {"what": f"no assertions returned although a set of true assertions excluding every alternative winner "
+                            f"exists, with largest difficulty {o_!r} (hardest alternative order {list(pi_)})"}
+        return None
     # OPT = min over sufficient sets of the max difficulty = max over alternative orders of the cheapest
     # true assertion contradicting it (= the smallest threshold d whose sub-family covers every order)
     opt, worst = -math.inf, None
